@@ -1162,3 +1162,70 @@ def r_span_ends(rep, f):
         rep.violation("R-SPAN-ENDS", key, "; ".join(probs) + ": for a backward run sol() would reject times inside the final step", b.get("sp"))
     else:
         rep.ok("R-SPAN-ENDS", key, "t_span() = (first.xold, last.xold + last.h)")
+
+
+# ------------------------------------------------------------------------------------------ R-SEG-WIDTH
+def r_seg_width(rep, f):
+    """Every interpolation routine divides by the width of its segment ((xi - xold) / h).  The segments of a run come from
+    accepted steps (from_segments skips the zero-width ones); a segment that the library builds by itself - the placeholder of
+    a zero-length run - must be given a width that is non-zero for EVERY start point, or evaluating the dense
+    output at a stored sample returns NaN instead of the sample.  The width argument is evaluated over intervals with the
+    function's parameters unconstrained."""
+    import interval
+    from symx import SymExec, Hooks
+    NEW = "dense::DenseSegment::new"
+    nb = f.bodies.get(NEW)
+    if nb is None:
+        rep.inconc("R-SEG-WIDTH", "R-SEG-WIDTH:anchor", "DenseSegment::new not found")
+        return
+    hpos = [i for i, p_ in enumerate(nb.get("params", [])) if p_.get("k") == "PBind" and p_.get("name") == "h"]
+    if len(hpos) != 1:
+        rep.inconc("R-SEG-WIDTH", "R-SEG-WIDTH:anchor", "DenseSegment::new has no single parameter named h")
+        return
+    n_sites = 0
+    for b in f.body_list:
+        fn = b["def"]
+        if fn == "solve::cont::ContinuousOutput::from_segments" or "::{closure" in fn:
+            continue            # the stored steps: R-SEG-KEEP covers the zero-width skip there
+        calls = tast.find(b["body"], lambda z: z.get("k") == "Call" and (z.get("def") or "") == NEW)
+        if not calls:
+            continue
+        key = "R-SEG-WIDTH:%s" % fn
+        rep.fn(fn)
+        got = []
+
+        class H(Hooks):
+            def call(self, sx, node, d):
+                if d == NEW and len(node["args"]) > hpos[0]:
+                    got.append((sx.eval(node["args"][hpos[0]]), node))
+                return NotImplemented
+        try:
+            sx = SymExec(f, fn, H())
+            sx.bind_params()
+            sx.eval(b["body"])
+        except Exception as e:
+            rep.inconc("R-SEG-WIDTH", key, "could not interpret %s: %s" % (fn, e), b.get("sp"))
+            continue
+        if not got:
+            rep.inconc("R-SEG-WIDTH", key, "the DenseSegment::new call was not reached by the interpreter", b.get("sp"))
+            continue
+        bad = None
+        for v, node in got:
+            n_sites += 1
+            if not isinstance(v, Poly):
+                bad = (v, node, "is not a scalar the analysis can bound")
+                continue
+            try:
+                iv = interval.Evaluator([], {}).poly(v)
+            except interval.IntervalError as e:
+                bad = (v, node, "could not be bounded (%s)" % e)
+                continue
+            if iv.empty() or iv.lo <= 0.0 <= iv.hi:       # (a NaN start point is the caller's; only zero is the library's doing)
+                bad = (v, node, "can be zero for some argument values (range [%s, %s])" % (iv.lo, iv.hi))
+        if bad:
+            rep.violation("R-SEG-WIDTH", key, "the width %r given to a segment built outside the step record %s: the interpolation routines divide by it, so the dense output "
+                          "evaluated on that segment is NaN instead of the stored sample" % (bad[0], bad[2]), bad[1].get("sp"))
+        else:
+            rep.ok("R-SEG-WIDTH", key, "%d segment(s) built outside the step record, width %s: never zero" % (len(got), ", ".join(repr(v) for v, _ in got)[:80]))
+    if n_sites < 1:
+        rep.inconc("R-SEG-WIDTH", "R-SEG-WIDTH:floor", "no DenseSegment::new call outside from_segments found (expected the zero-length-run placeholder)")
